@@ -111,6 +111,7 @@ def gen_case(rng, mixed_lang=None):
             for e in es:
                 if rng.random() < 0.85:
                     e["arguments"] = e["arguments"][:1] + ["-I", "../outside"] + e["arguments"][1:]
+    tus = gen_outside_tus(rng, desc, texts, headers, plats, outside)
     mixed = rng.random() < 0.3 if mixed_lang is None else mixed_lang
     if mixed and headers:
         # a header whose meaning depends on the language it is parsed in (directive inside a C comment),
@@ -133,7 +134,72 @@ def gen_case(rng, mixed_lang=None):
     files = {os.path.join("root", p): "\n".join(b) + ("\n" if b else "") for p, b in texts.items()}
     for name, b in outside.items():
         files[os.path.join("outside", name)] = "\n".join(b) + "\n"
+    for name, b in tus.items():
+        files[os.path.join("outside", name)] = "\n".join(b) + "\n"
     return {"files": files, "platforms": plats, "mixed_lang": bool(mixed and headers)}
+
+
+TU_SPELLINGS = ("rel", "abs", "builddir", "builddir_rel")
+
+
+def gen_outside_tus(rng, desc, texts, headers, plats, outside):
+    """0-2 translation units *compiled* from the sibling directory outside the root (the source generated into an
+    out-of-tree build directory, the unity file, ...).  Each defines some of the macros A,B,C itself and/or gets them
+    through -D, includes in-tree headers (found by base name through -I <their directory>) and possibly an in-tree
+    source (unity build) or a sibling outside header, so that in-tree lines may be reached by this unit only.
+    The compile command is spelled in one of four ways:
+      rel          file ../outside/g.c, directory = root
+      abs          file ${OUT}/g.c (absolute), directory = root
+      builddir     directory = ${OUT} (absolute), file g.c, -I ${ROOT}/<dir>
+      builddir_rel directory = ../outside (relative to the root), file g.c, -I ${ROOT}/<dir>
+    ${ROOT} / ${OUT} are replaced by the absolute paths when the case is written to disk.
+    Returns {file name: [lines]}; adds the commands to `plats` (sometimes as a platform of its own)."""
+    tus = {}
+    n_tu = rng.choice([0, 1, 1, 1, 2])
+    for k in range(n_tu):
+        name = f"g{k}.{rng.choice(['c', 'cpp', 'cc'])}"
+        pool = list(headers)
+        inc = rng.sample(pool, rng.randint(1, min(2, len(pool)))) if pool else []
+        items = [f'#include "{os.path.basename(h)}"' for h in inc]
+        incdirs = [os.path.dirname(h) for h in inc]
+        if desc["sources"] and rng.random() < 0.25:
+            s = rng.choice(desc["sources"])           # unity build: an in-tree source included from outside
+            items.append(f'#include "{os.path.basename(s)}"')
+            incdirs.append(os.path.dirname(s))
+        if outside and rng.random() < 0.4:
+            items.append(f'#include "{rng.choice(sorted(outside))}"')   # sibling: found next to the includer
+        rng.shuffle(items)
+        b = []
+        for n in G.NAMES:
+            if rng.random() < 0.5:
+                b.append(rng.choice([f"#define {n} 1", f"#define {n} 1", f"#define {n} 0", f"#define {n} 2", f"#undef {n}"]))
+        own = G.body(rng, 2, [], name, [6], False)
+        for it in items:
+            own.insert(rng.randint(0, len(own)), it)
+        tus[name] = b + own
+        users = [p for p in plats if rng.random() < 0.7] or ([rng.choice(sorted(plats))] if plats else [])
+        if rng.random() < 0.2 or not users:
+            fresh = [p for p in G.PLATFORM_NAMES if p not in plats]
+            if fresh:
+                plats[fresh[0]] = []                  # a platform that compiles nothing but out-of-tree units
+                users.append(fresh[0])
+        for p in users:
+            style = rng.choice(TU_SPELLINGS)
+            defs = [f"-D{n}={rng.randint(0, 1)}" for n in G.NAMES if rng.random() < 0.3]
+            incs = []
+            for dname in dict.fromkeys(incdirs):
+                if rng.random() < 0.9:
+                    inside = dname or "."
+                    incs += ["-I", inside if style in ("rel", "abs") else "${ROOT}" + ("/" + dname if dname else "")]
+            if style == "rel":
+                e = {"file": "../outside/" + name, "arguments": ["gcc"] + defs + incs + ["-c", "../outside/" + name]}
+            elif style == "abs":
+                e = {"file": "${OUT}/" + name, "arguments": ["gcc"] + defs + incs + ["-c", "${OUT}/" + name]}
+            else:
+                e = {"file": name, "directory": "${OUT}" if style == "builddir" else "../outside",
+                     "arguments": ["gcc"] + defs + incs + ["-c", name]}
+            plats[p].insert(rng.randint(0, len(plats[p])), e)
+    return tus
 
 
 def source_files(case):
@@ -236,9 +302,99 @@ def materialise(d, case, toml_excludes=None, toml_name="analysis.toml", blank=()
             f.write("" if p in blank else text)
     for name, entries in case["platforms"].items():
         with open(os.path.join(root, f"{name}.json"), "w") as f:
-            json.dump([dict(e, directory=root) for e in entries], f)
+            json.dump(db_entries(entries, d), f)
     write_toml(root, case, toml_excludes, toml_name)
     return root
+
+
+def place(s, d):
+    """${ROOT} / ${OUT}: absolute paths of the root and of its sibling `outside` in this materialisation"""
+    return s.replace("${ROOT}", os.path.join(d, "root")).replace("${OUT}", os.path.join(d, "outside"))
+
+
+def db_entries(entries, d):
+    """the compilation-database entries as written to disk (directory defaults to the root)"""
+    root = os.path.join(d, "root")
+    return [{"file": place(e["file"], d), "directory": place(e["directory"], d) if e.get("directory") else root,
+             "arguments": [place(a, d) for a in e["arguments"]]} for e in entries]
+
+
+def spec_commands(case, d):
+    """Specification of the loader, from the case description alone: every compile command whose file exists is
+    kept, wherever the file lies -> {platform: [absolute normalised path of the compiled file, in database order]}"""
+    root = os.path.join(d, "root")
+    out = {}
+    for name, entries in case["platforms"].items():
+        out[name] = []
+        for e in db_entries(entries, d):
+            base = e["directory"] if os.path.isabs(e["directory"]) else os.path.join(root, e["directory"])
+            path = os.path.normpath(os.path.join(base, e["file"]))
+            if os.path.exists(path):
+                out[name].append(path)
+    return out
+
+
+def is_outside_entry(e):
+    dr, f = e.get("directory") or "", e["file"]
+    return f.startswith(("../outside/", "${OUT}/")) or dr == "${OUT}" or dr.startswith("../outside")
+
+
+def outside_commands(case):
+    """(platform, spelling) of the commands that compile a file from outside the root"""
+    out = []
+    for name, entries in case["platforms"].items():
+        for e in entries:
+            dr, f = e.get("directory") or "", e["file"]
+            if f.startswith("../outside/"):
+                out.append((name, "rel"))
+            elif f.startswith("${OUT}/"):
+                out.append((name, "abs"))
+            elif dr == "${OUT}":
+                out.append((name, "builddir"))
+            elif dr.startswith("../outside"):
+                out.append((name, "builddir_rel"))
+    return out
+
+
+def loader_model(ctx, drv, case, d, cfg):
+    """correspondence for the step before `find`: codebasin.config.load_database against the Lean model and the
+    Lean specification of the loader (driver op `dbload`, the definitions C13's theorems are about)"""
+    from codebasin import config
+
+    root = os.path.join(d, "root")
+    seen = {}
+    for name, entries in case["platforms"].items():
+        doc = db_entries(entries, d)
+        table = []
+        for argv in {tuple(e["arguments"]) for e in doc}:
+            try:
+                cfgs = config.ArgumentParser(os.path.basename(argv[0])).parse_args(list(argv[1:]))
+                table.append([list(argv), [[c.pass_name, list(c.include_paths)] for c in cfgs]])
+            except BaseException:  # noqa  (argparse is C11's subject)
+                return seen
+        req = {"op": "dbload", "cwd": os.getcwd(), "root": root, "doc": doc, "parses": table}
+        r1 = drv.ask(req)
+        if "candidates" not in r1:
+            ctx.notes.append(f"dbload not answered: {json.dumps(r1)[:200]}")
+            return seen
+        req["exists"] = [[p, os.path.exists(p)] for p in dict.fromkeys(r1.get("candidates", []))]
+        req["exists_loc"] = [[loc, os.path.exists("/" + "/".join(loc))] for loc in r1["spec"].get("candidates", [])]
+        r = drv.ask(req)
+        impl = [[e["file"], list(e["include_paths"])] for e in cfg[name]]
+        ctx.dist["loader_vs_model"] += 1
+        mm = r["model"]
+        seen[name] = mm.get("error") or rel([e["file"] for e in mm["entries"]], d)
+        if "error" in mm or [[e["file"], e["include_paths"]] for e in mm["entries"]] != impl:
+            ctx.corr_break("dbload", {"files": case["files"], "platforms": case["platforms"], "excludes": [], "intended": [], "platform": name},
+                           impl, mm)
+        sp = r["spec"]
+        if sp.get("wf"):
+            # self-check of this file's own loader specification against the Lean one
+            mine = [[c for c in f.split("/") if c] for f in spec_commands(case, d)[name]]
+            if mine != [e["file"] for e in sp["entries"]]:
+                ctx.notes.append(f"spec_commands differs from the Lean loader specification on platform {name}: "
+                                 f"{mine} vs {[e['file'] for e in sp['entries']]}")
+    return seen
 
 
 def write_toml(root, case, toml_excludes, toml_name):
@@ -362,6 +518,39 @@ def check_case(ctx, drv, case, exclude_lists, origin, effect_runs=6):
             return rep
         base_case = {"files": case["files"], "platforms": case["platforms"], "excludes": [], "intended": []}
         exp0 = sorted(os.path.join(root, f) for f in allsrc)
+        # "still preprocessed when compiled": every compile command whose file exists is kept by the loader and its
+        # file is walked for its platform, wherever the file lies
+        want_cmds = spec_commands(case, d)
+        got_cmds = {p: [e["file"] for e in cfg[p]] for p in cfg}
+        if got_cmds != want_cmds:
+            p_bad = next(p for p in want_cmds if got_cmds.get(p) != want_cmds[p])
+            ctx.violation(f"platform {p_bad}: load_database keeps the compile commands of {rel(got_cmds.get(p_bad, []), d)}, "
+                          f"expected one per existing compiled file {rel(want_cmds[p_bad], d)} (files outside the root are still compiled)", base_case)
+        for p, paths in want_cmds.items():
+            for f in paths:
+                rows = att0.get(f)
+                if rows is None or (rows and p not in rows[0][2]):
+                    ctx.violation(f"{os.path.relpath(f, d)} is compiled for platform {p} but "
+                                  + ("is not preprocessed at all" if rows is None else f"its first node is attributed to {rows[0][2]}"), base_case)
+        tu_cmds = outside_commands(case)
+        if tu_cmds:
+            ctx.dist["case_with_outside_translation_unit"] += 1
+            for _, sp_ in tu_cmds:
+                ctx.dist["outside_tu_spelling:" + sp_] += 1
+            if any(all(is_outside_entry(e) for e in case["platforms"][p]) for p, _ in tu_cmds):
+                ctx.dist["platform_of_outside_units_only"] += 1
+            # does the out-of-tree unit matter?  analyse without its commands and look at the files under the root
+            try:
+                cfg_in = {p: [e for e in cfg[p] if e["file"].startswith(root + os.sep)] for p in cfg}
+                _, st_in = run_find(root, cfg_in, [])
+                att_in = nodes_of(st_in)
+                if any(att_in.get(f) != att0.get(f) for f in exp0):
+                    ctx.dist["outside_tu_reaches_in_tree_lines_nothing_else_reaches"] += 1
+                    ctx.nontrivial.add(json.dumps([case["files"], case["platforms"], "outside-tu"], sort_keys=True))
+            except Exception:
+                ctx.dist["analysis_without_outside_tu_raises"] += 1
+        rep["loader"] = {"implementation": {p: rel(v, d) for p, v in got_cmds.items()}, "spec": {p: rel(v, d) for p, v in want_cmds.items()},
+                         "model": loader_model(ctx, drv, case, d, cfg) if drv is not None else None}
         if members0 != exp0:
             ctx.violation(f"code base without excludes is {rel(members0, root)}, expected every source file under the root {allsrc}", base_case)
         if drop_zero(sm0) != drop_zero(own_setmap(att0, exp0)):
@@ -447,8 +636,10 @@ def check_case(ctx, drv, case, exclude_lists, origin, effect_runs=6):
                 ctx.dist["pattern:" + s] += 1
             hdr_x = [f for f in X if f.endswith((".h", ".hpp"))]
             ctx.dist["excludes_header" if hdr_x else "excludes_sources_only"] += 1
-            if any(f in reached0 for f in outside_abs):
+            if any(f in reached0 for f in outside_abs if f.endswith((".h", ".hpp"))):
                 ctx.dist["outside_header_reached"] += 1
+            if any(f in reached0 for f in outside_abs if not f.endswith((".h", ".hpp"))):
+                ctx.dist["outside_translation_unit_reached"] += 1
             if case.get("mixed_lang"):
                 ctx.dist["mixed_language_case"] += 1
             # does an excluded/outside file really matter to the others?  blank them and look
@@ -501,44 +692,68 @@ def check_case(ctx, drv, case, exclude_lists, origin, effect_runs=6):
     return rep
 
 
+def move_inside(case):
+    """the same code base with `outside/` moved to `root/zz_outside/` and every spelling of it in the commands adjusted"""
+    def mv(a):
+        a = a.replace("${OUT}", "${ROOT}/zz_outside")
+        if a == "../outside" or a.startswith("../outside/"):
+            a = "zz_outside" + a[len("../outside"):]
+        return a
+
+    files = {(("root/zz_outside/" + p[len("outside/"):]) if p.startswith("outside/") else p): t for p, t in case["files"].items()}
+    plats = {}
+    for n, es in case["platforms"].items():
+        plats[n] = []
+        for e in es:
+            e2 = dict(e, file=mv(e["file"]), arguments=[mv(a) for a in e["arguments"]])
+            if e.get("directory"):
+                e2["directory"] = mv(e["directory"])
+            plats[n].append(e2)
+    return {"files": files, "platforms": plats}
+
+
 def check_outside(ctx, case, att0, sm0, cls0, d0):
-    """headers outside the root are preprocessed exactly as if they were inside; only their lines are not counted:
-    compare with the same code base after moving `outside/` to `root/zz_outside/` (and -I ../outside to -I zz_outside)"""
-    moved = {"files": {(("root/zz_outside/" + p[len("outside/"):]) if p.startswith("outside/") else p): t for p, t in case["files"].items()},
-             "platforms": {n: [dict(e, arguments=["zz_outside" if a == "../outside" else a for a in e["arguments"]]) for e in es]
-                           for n, es in case["platforms"].items()}}
+    """files outside the root (included headers and compiled translation units) are preprocessed exactly as if they
+    were inside; only their lines are not counted.  Compare with the same code base after moving `outside/` to
+    `root/zz_outside/` (i) without exclusion: everything attributed identically, the setmap grows by the moved files'
+    own lines; (ii) with the pattern /zz_outside/: "excluded by pattern" and "outside the root" are the same thing,
+    so attribution and setmap are identical."""
+    moved = move_inside(case)
     c = {"files": case["files"], "platforms": case["platforms"], "excludes": [], "intended": [], "outside_vs_inside": True}
     key0 = lambda f: os.path.relpath(f, d0).replace("outside/", "root/zz_outside/", 1) if os.path.relpath(f, d0).startswith("outside/") else os.path.relpath(f, d0)
+    a0 = {key0(f): rows for f, rows in att0.items()}
+    c0 = {key0(f): v for f, v in cls0.items()}
     with core.Scratch() as d2:
         d2 = os.path.realpath(str(d2))
         root2 = materialise(d2, moved)
-        try:
-            cfg2 = load_config(root2, moved)
-            cb2, st2 = run_find(root2, cfg2, [])
-            att2 = {os.path.relpath(f, d2): rows for f, rows in nodes_of(st2).items()}
-            sm2 = norm_setmap(st2.get_setmap(cb2))
-            cls2 = {os.path.relpath(f, d2): v for f, v in lang_classes(st2).items()}
-        except Exception as e:
-            ctx.count(key="outside_moved_inside_raises")
-            return
-    ctx.count(key="outside_vs_inside")
-    a0 = {key0(f): rows for f, rows in att0.items()}
-    c0 = {key0(f): v for f, v in cls0.items()}
-    info = {"mismatch": class_changes(c0, cls2)}
-    bad = []
-    changed = sorted(k for k in a0 if k in att2 and a0[k] != att2[k])
-    if changed:
-        bad.append(f"attribution of {changed} differs between headers placed outside the root and the same headers inside")
-    lost = sorted(k for k, rows in att2.items() if any(ps for _, _, ps, _ in rows) and k not in a0)
-    if lost:
-        bad.append(f"{lost} are preprocessed when inside the root but not when placed outside it")
-    want = collections.Counter(sm0)
-    want.update(own_setmap(att2, [k for k in att2 if k.startswith("root/zz_outside/")]))
-    if drop_zero(dict(want)) != drop_zero(sm2) and not changed and not lost:
-        bad.append(f"setmap with the headers inside {show(sm2)} != setmap with them outside {show(sm0)} + their own lines")
-    if bad:
-        r = ctx.classify(dict(c, **strip(info)), "; ".join(bad[:3]), [("D19", d19_pred(info))])
-        ctx.dist["outside/inside differ: " + ("known finding D19" if r == "known" else "VIOLATION")] += 1
+        for variant, pats in (("inside", []), ("inside and excluded by /zz_outside/", ["/zz_outside/"])):
+            try:
+                cfg2 = load_config(root2, moved)
+                cb2, st2 = run_find(root2, cfg2, pats)
+                att2 = {os.path.relpath(f, d2): rows for f, rows in nodes_of(st2).items()}
+                sm2 = norm_setmap(st2.get_setmap(cb2))
+                cls2 = {os.path.relpath(f, d2): v for f, v in lang_classes(st2).items()}
+            except Exception as e:
+                ctx.count(key="outside_moved_inside_raises")
+                return
+            ctx.count(key="outside_vs_" + ("inside" if not pats else "inside_excluded"))
+            info = {"mismatch": class_changes(c0, cls2)}
+            bad = []
+            changed = sorted(k for k in a0 if k in att2 and a0[k] != att2[k])
+            if changed:
+                bad.append(f"attribution of {changed} differs between files placed outside the root and the same files {variant}")
+            lost = sorted(k for k, rows in att2.items() if any(ps for _, _, ps, _ in rows) and k not in a0)
+            if lost:
+                bad.append(f"{lost} are preprocessed when {variant} the root but not when placed outside it")
+            want = collections.Counter(sm0)
+            if not pats:
+                want.update(own_setmap(att2, [k for k in att2 if k.startswith("root/zz_outside/")]))
+            if drop_zero(dict(want)) != drop_zero(sm2) and not changed and not lost:
+                bad.append(f"setmap with the files {variant} {show(sm2)} != setmap with them outside {show(sm0)}" + ("" if pats else " + their own lines"))
+            if bad:
+                r = ctx.classify(dict(c, **strip(info)), "; ".join(bad[:3]), [("D19", d19_pred(info))])
+                ctx.dist["outside/inside differ: " + ("known finding D19" if r == "known" else "VIOLATION")] += 1
+                return
 
 
 def strip(info):
@@ -706,6 +921,41 @@ def check_cli(ctx, drv, case, pats, origin):
                 gotc = {r["file"]: (sorted(r["used_lines"]), sorted(r["unused_lines"])) for r in recs}
                 if gotc != want:
                     ctx.violation(f"cbi-cov -x {pats}: records {sorted(gotc)} / lines differ from the remaining files {sorted(want)} of the in-process analysis", c)
+        # ---- files outside the root == the same files inside and excluded by pattern, at the command line
+        if any(f.startswith("outside/") for f in case["files"]):
+            moved = move_inside(case)
+            with core.Scratch() as d2:
+                d2 = os.path.realpath(str(d2))
+                root2 = materialise(d2, moved)
+
+                def run2(mod, args):
+                    rc, out, err = core.run_cli(mod, args, cwd=root2)
+                    lp = os.path.join(root2, "cbi.log")
+                    if os.path.exists(lp):
+                        os.unlink(lp)
+                    return rc, norm(out, d2), norm(err, d2)
+
+                ctx.count(key="cli_outside_vs_inside_excluded")
+                zp = list(pats) + ["/zz_outside/"]
+                z = run2("codebasin", ["-R", "summary"] + xargs(zp) + ["analysis.toml"])
+                zrows, ztotal, _ = G.parse_summary(z[1])
+                zgot = {k: v[0] for k, v in zrows.items()}
+                rep["codebasin"]["inside_excluded"] = z[:2]
+                if a[0] == 0 and (z[0] != 0 or drop_zero(zgot) != drop_zero(got) or ztotal != total):
+                    ctx.violation(f"codebasin -x {pats}: summary with files outside the root {show(got)} total {total} != summary with the same "
+                                  f"files inside the root and excluded by /zz_outside/ {show(zgot)} total {ztotal} (exit {z[0]})", c)
+                tus = outside_commands(case)
+                pz = tus[0][0] if tus else p0
+                if pz is not None:
+                    cov1, cov2 = os.path.join(d, "cov_o.json"), os.path.join(d2, "cov_z.json")
+                    c1 = run("codebasin.coverage", ["compute", "-S", root] + xargs(pats) + ["-o", cov1, os.path.join(root, f"{pz}.json")])
+                    c2 = run2("codebasin.coverage", ["compute", "-S", root2] + xargs(zp) + ["-o", cov2, os.path.join(root2, f"{pz}.json")])
+                    if c1[0] == 0:
+                        r1 = sorted((r["file"], sorted(r["used_lines"]), sorted(r["unused_lines"])) for r in json.load(open(cov1)))
+                        r2 = sorted((r["file"], sorted(r["used_lines"]), sorted(r["unused_lines"])) for r in json.load(open(cov2))) if c2[0] == 0 else None
+                        if r1 != r2:
+                            ctx.violation(f"cbi-cov -x {pats} platform {pz}: coverage records with files outside the root differ from those with the "
+                                          f"same files inside the root and excluded by /zz_outside/", c)
         # ---- the pattern list handed to CodeBase, observed, vs the model's concatenation
         if drv is not None:
             spy = os.path.join(d, "spy.py")
@@ -770,6 +1020,33 @@ def fixed_cases():
     return case, lists
 
 
+def fixed_outside_tu():
+    """hand-written: translation units compiled from outside the root (a unity file and a generated table in an
+    out-of-tree build directory) that configure and reach in-tree files no in-tree unit of their platform reaches"""
+    files = {
+        "root/kern/impl.h": "#ifndef IMPL_H\n#define IMPL_H\n#if WIDTH == 8\nint wide;\n#else\nint narrow;\n#endif\n#include \"detail/tab.h\"\n#endif\n",
+        "root/kern/detail/tab.h": "#ifdef FROM_BUILD\nint table_for_build;\n#endif\nint table;\n",
+        "root/kern/a.c": "#include \"impl.h\"\nint a;\n",
+        "root/kern/b.c": "#ifdef UNITY\nint b_unity;\n#else\nint b_alone;\n#endif\n",
+        "root/app.c": "int app;\n",
+        "outside/unity.c": "#define UNITY 1\n#define WIDTH 8\n#include \"a.c\"\n#include \"b.c\"\n",
+        "outside/tabgen.c": "#include \"bcfg.h\"\n#include \"tab.h\"\nint generated;\n",
+        "outside/bcfg.h": "#define FROM_BUILD 1\n",
+    }
+    plats = {
+        "host": [{"file": "app.c", "arguments": ["gcc", "-c", "app.c"]},
+                 {"file": "../outside/unity.c", "arguments": ["gcc", "-I", "kern", "-c", "../outside/unity.c"]}],
+        "dev": [{"file": "tabgen.c", "directory": "${OUT}", "arguments": ["gcc", "-I", "${ROOT}/kern/detail", "-c", "tabgen.c"]}],
+        "sim": [{"file": "kern/a.c", "arguments": ["gcc", "-DWIDTH=4", "-c", "kern/a.c"]},
+                {"file": "${OUT}/tabgen.c", "arguments": ["gcc", "-I", "kern/detail", "-c", "${OUT}/tabgen.c"]},
+                {"file": "unity.c", "directory": "../outside", "arguments": ["gcc", "-I", "${ROOT}/kern", "-c", "unity.c"]}],
+    }
+    case = {"files": files, "platforms": plats, "mixed_lang": False}
+    lists = [(["kern/"], ["kern/impl.h", "kern/detail/tab.h", "kern/a.c", "kern/b.c"]), (["*.h"], ["kern/impl.h", "kern/detail/tab.h"]),
+             (["/app.c", "detail/"], ["app.c", "kern/detail/tab.h"]), (["/kern/b.c"], ["kern/b.c"])]
+    return case, lists
+
+
 # --------------------------------------------------------------------------
 def run(ctx, drv):
     import time
@@ -778,15 +1055,24 @@ def run(ctx, drv):
     t_cli = 0.0
     ctx.rule = ("case = random code base (C/C++ sources and headers from harness/gen/codebase.py whose headers define the macros "
                 "A,B,C that other files test; 0-2 headers in a sibling directory outside the root reached through -I ../outside; "
+                "0-2 translation units *compiled* from that outside directory (defining A,B,C themselves or through -D, including "
+                "in-tree headers / in-tree sources / outside headers; command spelled ../outside/g.c, absolute, or with an absolute "
+                "or relative out-of-tree `directory`; sometimes the only commands of a platform), loaded through config.load_database; "
                 "30% with free-form Fortran sources including a header that hides a #define inside /* */) x 1-3 platforms x exclude "
                 "lists matching subsets of the source files (every non-empty subset when <= 5 files, else singletons + random subsets), "
                 "each subset spelled with /path, path, basename, *.ext and dir/ patterns. Every (case, exclude list) is one evaluation: "
                 "analysis without and with the exclusion, compared. Non-trivial = distinct (code base, excluded set) in which blanking "
-                "the excluded/outside files changes the attribution of a remaining file, i.e. their macros are really needed.")
+                "the excluded/outside files changes the attribution of a remaining file, i.e. their macros are really needed, "
+                "or (key 'outside-tu') a code base in which dropping the commands of the out-of-tree translation units changes the "
+                "attribution of a file under the root. Every case with files outside the root is also analysed with those files moved "
+                "inside (with and without the pattern /zz_outside/) and, for the CLI cases, through codebasin / cbi-cov; the loader's "
+                "result is compared with one command per existing compiled file and with the Lean model of load_database (op dbload).")
     ctx.assumptions += [
         "pattern semantics is C09's subject: the generator only uses /path, path, basename, *.ext, dir/ patterns and predicts the matched set itself",
         "code bases whose analysis already fails without exclusion are skipped (counted in the distribution)",
         "symbolic links are not generated (C15); one code-base directory (cwd)",
+        "out-of-tree translation units are compiled with gcc only (one pass, one configuration entry per command); argument parsing is C11's subject",
+        "the Lean model of `find` starts from the loaded configuration; the loader step is tied in through C13's model/spec (op dbload) and this file's spec_commands",
         "cbi-cov has no analysis file: its -x is compared with an in-process CodeBase given the same patterns",
         "Lean model: fuelled engine (fuel 10^6); a header is parsed under a language *class* (C / Fortran / asm), c and c++ share a parser",
     ]
@@ -801,6 +1087,9 @@ def run(ctx, drv):
     check_case(ctx, drv, fc, fl, "fixed")
     check_cli(ctx, drv, fc, ["inc/", "/third/lib.c"], "fixed")
     check_cli(ctx, drv, fc, ["*.c", "!/src/other.c"], "fixed-negation")
+    oc, ol = fixed_outside_tu()
+    check_case(ctx, drv, oc, ol, "fixed-outside-tu")
+    check_cli(ctx, drv, oc, ["detail/", "/app.c"], "fixed-outside-tu")
     # random
     ncases = ctx.n(36, 350)
     ncli = ctx.n(3, 30)
